@@ -82,6 +82,59 @@ fn c16_static_table_rows() {
     kani::cover!(true, "reached");
 }
 
+/// lookup_index(name, value) for a row whose name is the FIRST with that name: exact value => (true, idx), any other
+/// value of the same length (e.g. differing only by case) => (false, idx) -- the value must not be normalised
+macro_rules! lookup_exact {
+    ($name:ident, $idx:literal, $key:literal, $val:literal, $n:literal) => {
+        #[kani::proof]
+        #[kani::unwind(101)]
+        fn $name() {
+            let v: [u8; $n] = kani::any();
+            let mut i = 0;
+            while i < $n {
+                kani::assume(v[i] < 0x80);
+                i += 1;
+            }
+            let vs = unsafe { core::str::from_utf8_unchecked(&v) };
+            let want: &[u8] = $val;
+            let same = eq_prefix(&v, want, $n);
+            match vh::qpack::lookup_index($key, vs) {
+                Some((exact, idx)) => {
+                    assert!(idx == $idx, "name resolved to a different static row than the first one of that name");
+                    assert!(exact == same, "static-table value match must be byte-exact (a normalised match changes the value the peer decodes)");
+                    kani::cover!(exact, "exact hit");
+                    kani::cover!(!exact, "name-only hit");
+                }
+                None => assert!(false, "static name not found"),
+            }
+        }
+    };
+}
+
+// @h props=C14,C16 tier=quick t=1800 sub=static-lookup-exact
+// @fn wtransport-proto/src/qpack.rs StaticTable::lookup_index
+// @bound name ":method", every 7-byte ASCII value
+// @oracle exact (name,value) hit <=> value == "CONNECT" byte for byte, at row 15 (first ":method" row); otherwise name-only hit at row 15 (the value then travels as a literal, so decode(encode(v)) == v)
+lookup_exact!(c16_lookup_index_method, 15, ":method", b"CONNECT", 7);
+
+// @h props=C14,C16 tier=quick t=1800 sub=static-lookup-exact
+// @fn wtransport-proto/src/qpack.rs StaticTable::lookup_index
+// @bound name ":scheme", every 4-byte ASCII value
+// @oracle as c16_lookup_index_method with row 22 (":scheme","http")
+lookup_exact!(c16_lookup_index_scheme, 22, ":scheme", b"http", 4);
+
+// @h props=C14,C16 tier=quick t=1800 sub=static-lookup-exact
+// @fn wtransport-proto/src/qpack.rs StaticTable::lookup_index
+// @bound name ":status", every 3-byte ASCII value
+// @oracle as c16_lookup_index_method with row 24 (":status","103")
+lookup_exact!(c16_lookup_index_status, 24, ":status", b"103", 3);
+
+// @h props=C14,C16 tier=thorough t=1800 sub=static-lookup-exact
+// @fn wtransport-proto/src/qpack.rs StaticTable::lookup_index
+// @bound name "x-frame-options", every 4-byte ASCII value
+// @oracle as c16_lookup_index_method with row 97 ("x-frame-options","deny")
+lookup_exact!(c16_lookup_index_xframe, 97, "x-frame-options", b"deny", 4);
+
 // @h props=C16 tier=quick t=900 expect=fail sub=twin
 // @fn wtransport-proto/src/qpack.rs StaticTable::lookup_field
 // @bound twin: claims row 17 is (":method","POST"); must be refuted
